@@ -5,10 +5,10 @@ PAT=${1:-*}
 W=${SEED_WT:-/var/tmp/wt-seedtest}
 export VERIF_EVIDENCE_DIR=/var/tmp/seed-evidence; mkdir -p $VERIF_EVIDENCE_DIR
 [ -d $W ] || git -C /repo worktree add --detach $W main -q
-cd /verif
+cd ${VERIF_ROOT:-/verif}
 for d in seeded/$PAT; do
   [ -f $d/patch.diff ] || continue
-  (cd $W && git checkout -q --detach main && git reset -q --hard && git clean -qfd && git apply /verif/$d/patch.diff) || { echo "$d: patch does not apply"; continue; }
+  (cd $W && git checkout -q --detach main && git reset -q --hard && git clean -qfd && git apply ${VERIF_ROOT:-/verif}/$d/patch.diff) || { echo "$d: patch does not apply"; continue; }
   C=$(python3 -c "import json,re; m=json.load(open('$d/meta.json')); print(re.findall(r'C\d\d', m.get('ran',''))[0] if re.findall(r'C\d\d', m.get('ran','')) else m['property'])")
   OUT=$(BOBOCEP_REPO=$W ./check $C 2>&1 | grep -v '^KNOWN' | tail -2)
   if echo "$OUT" | grep -q "^VIOLATION property=$C"; then
@@ -16,6 +16,6 @@ for d in seeded/$PAT; do
   else echo "$d: MISSED by $C :: $(echo "$OUT" | tail -1 | cut -c1-200)"; fi
 done
 (cd $W && git reset -q --hard)
-PYTHONPATH=/repo:/verif /venv/bin/python -c "
+PYTHONPATH=/repo:${VERIF_ROOT:-/verif} /venv/bin/python -c "
 from harness import core; import pkgutil, translate
 core.run_translators([m.name for m in pkgutil.iter_modules(translate.__path__) if m.name not in ('pyexpr','normalize')])" >/dev/null 2>&1
